@@ -23,7 +23,7 @@ RULE = ("seeded driver histories of set_*/get_*/__call__/config/reset/set_data/g
         "multiples +-1 at start addresses 1 / mid / end of memory, interleaved with transport faults; SYNC links over "
         "repeat/delay/noise channels; distinct = (instrument settings hash x command family x clamp side x fault kind) "
         "signatures in runs with >=3 successful driver calls")
-WALL = {"quick": 120, "thorough": 300, "replay": 120}
+WALL = {"quick": 300, "thorough": 900, "replay": 600}
 BLOCK = {"quick": 100000, "thorough": 16384}
 SELFTEST = {"quick": 24, "thorough": 200}
 COMPONENTS_REAL = ["opticomlib.lab.PPG3204 (constructor, _query, _check_channels, all set_*/get_*, __call__, config, "
